@@ -135,8 +135,10 @@ fn target(r: &mut Rng, sw: &Swarm) -> Vec<u8> {
     if r.chance(3, 4) {
         v.push(b'/');
     }
+    // long targets are pure ASCII half of the time (ASCII fast paths must be entered too)
+    let ascii = n >= 40 && r.chance(1, 2);
     while v.len() < n {
-        match r.below(24) {
+        match if ascii { 10 } else { r.below(24) } {
             0 => v.push(0x21),
             1 => v.push(0x7e),
             2 | 3 => v.extend(utf8_char(r)),
@@ -676,8 +678,29 @@ pub fn apply_fault(r: &mut Rng, wire: &mut Vec<u8>, heads: &[(usize, usize)]) ->
             }
         }
         if !runs.is_empty() {
-            let (a, b) = *r.pick(&runs);
-            let at = r.range(a, b - 1);
+            // pick a run with probability proportional to its length (a 70 KiB token should not
+            // lose against twenty short ones), then a position: uniform, or within +-36 of a
+            // power-of-two offset from the token start (where length-gated fast paths switch)
+            let total: usize = runs.iter().map(|(a, b)| b - a).sum();
+            let mut pick = r.below(total);
+            let mut chosen = runs[0];
+            for &(a, b) in &runs {
+                if pick < b - a {
+                    chosen = (a, b);
+                    break;
+                }
+                pick -= b - a;
+            }
+            let (a, b) = chosen;
+            let mut at = r.range(a, b - 1);
+            if r.chance(1, 2) && b - a > 40 {
+                let maxk = (usize::BITS - 1 - (b - a).leading_zeros()) as usize;
+                let k = r.range(5, maxk.max(5));
+                let cand = (a + (1usize << k) + r.below(72)).saturating_sub(36);
+                if cand >= a && cand < b {
+                    at = cand;
+                }
+            }
             let byte = *r.pick(&[0x7fu8, 0x7f, 0x7f, 0x1f, 0x08, 0x00, 0x01, 0x0b, 0x0c, 0x80, 0xff, b'\t', b' ', b':', b'(', b'@']);
             if wire[at] != byte {
                 wire[at] = byte;
@@ -840,8 +863,8 @@ fn connection(r_work: &mut Rng, r_fault: &mut Rng, r_sched: &mut Rng, sw: &Swarm
         odd_chunk_line(r_work, &mut wire);
         heads.push((s, wire.len()));
     }
-    // byte-changing faults
-    if o.faults && r_fault.chance(sw.fault_rate, 16) {
+    // byte-changing faults (long mode: at least every second connection carries one)
+    if o.faults && r_fault.chance(if sw.long { sw.fault_rate.max(8) } else { sw.fault_rate }, 16) {
         let n = r_fault.range(1, 3);
         let mut first = usize::MAX;
         for _ in 0..n {
@@ -948,7 +971,7 @@ pub fn gen_sweep(seed: u64, o: &GenOpts) -> Trace {
         let n = if sw.long && rw.chance(1, 2) { *rw.pick(&[8192usize, 9000, 20000]) } else { rw.below(12) };
         wire.extend(body_bytes(&mut rw, n));
     }
-    if o.faults && rf.chance(sw.fault_rate, 16) {
+    if o.faults && rf.chance(if sw.long { sw.fault_rate.max(8) } else { sw.fault_rate }, 16) {
         let heads = [(0usize, wire.len())];
         for _ in 0..rf.range(1, 3) {
             if let Some(f) = apply_fault(&mut rf, &mut wire, &heads) {
